@@ -177,8 +177,10 @@ Definition x_window_when (mapper : nat -> res unit) : machine A A B :=
    durations are empty(): each right value leaves right_map before anything else
    happens, so a new window replays nothing.  [wg_open]: left_map in id order
    as (window, its closing source).  The j-th closing observable is source
-   [2 + j].  NOTE the right subscription has NO on_completed handler and the
-   left's completion only completes the outer observer. *)
+   [2 + j].  window_toggle_ asks group_join_ for complete_groups_with_right: the
+   windows open when the source completes are completed and forgotten
+   (on_completed_right); the left's completion only completes the outer
+   observer (windows stay open until their closings fire). *)
 Record wg_st := WgSt { wg_open : list (nat * nat); wg_next : nat; wg_calls : nat }.
 
 Definition wg_windows (s : wg_st) : list nat := map fst (wg_open s).
@@ -191,7 +193,7 @@ Definition x_window_toggle (mapper : nat -> res unit) : machine A A B :=
        match i with
        | ISrc O (Next x) => (s, wins_all (wg_windows s) (Next x), Cont)
        | ISrc O (Err e) => (s, wins_all (wg_windows s) (Err e), Fail e)
-       | ISrc O Done => (s, [], Cont)
+       | ISrc O Done => (WgSt [] (wg_next s) (wg_calls s), wins_all (wg_windows s) Done, Cont)
        | ISrc (S O) (Next _) =>
            let g := wg_next s in
            match mapper (wg_calls s) with
